@@ -32,8 +32,8 @@ ASSUMPTIONS = [
     "a path/query mixing valid %XX escapes with stray '%' may be encoded either way",
 ]
 REQUIRED_PROBES = {
-    "quick": ["https", "ipv6", "ipv6_zone", "idn", "trailing_dot", "userinfo", "fragment", "dot_segments", "pair_shared_socket", "sibling_dialled_under_own_name", "proxy_forward", "proxy_tunnel", "default_port_explicit", "empty_path_query"],
-    "thorough": ["https", "ipv6", "ipv6_zone", "idn", "trailing_dot", "userinfo", "fragment", "dot_segments", "pair_shared_socket", "sibling_dialled_under_own_name", "proxy_forward", "proxy_tunnel", "default_port_explicit", "empty_path_query"],
+    "quick": ["https", "ipv6", "ipv6_zone", "idn", "trailing_dot", "userinfo", "fragment", "dot_segments", "pair_shared_socket", "sibling_dialled_under_own_name", "second_life_checked", "proxy_forward", "proxy_tunnel", "default_port_explicit", "empty_path_query"],
+    "thorough": ["https", "ipv6", "ipv6_zone", "idn", "trailing_dot", "userinfo", "fragment", "dot_segments", "pair_shared_socket", "sibling_dialled_under_own_name", "second_life_checked", "proxy_forward", "proxy_tunnel", "default_port_explicit", "empty_path_query"],
 }
 
 HOSTS = ["h.test", "H.Test", "A.B.EXAMPLE.test", "h.test.", "bücher.test", "BÜCHER.test", "10.0.0.5", "[fd00::5]", "[FD00::5]", "[fe80::1%25eth0]", "[fe80::1%eth0]", "xn--bcher-kva.test"]
@@ -87,6 +87,11 @@ def gen(rng):
         if rng.random() < 0.5:
             sc["url"], sc["sibling"] = sc["sibling"], sc["url"]
         sc["first_closes"] = rng.random() < 0.5
+    elif rng.random() < 0.2:
+        # the same URL again after the server closed the first connection: the pooled connection object starts a second life
+        # and must be set up (dial, tunnel, TLS server name) exactly like the first time
+        sc["repeat"] = True
+        sc["first_closes"] = True
     return sc
 
 
@@ -164,9 +169,9 @@ def run(sc: dict) -> Result:
             return T.TlsPeer(world, chan, lambda w_, c: P.HttpPeer(w_, c, name, "origin", True), cert="any", name=name)
         return P.HttpPeer(world, chan, name, "origin")
 
-    urls = [sc["url"]] + ([sc["variant"]] if sc.get("variant") else []) + ([sc["sibling"]] if sc.get("sibling") else [])
+    urls = [sc["url"]] + ([sc["variant"]] if sc.get("variant") else []) + ([sc["sibling"]] if sc.get("sibling") else []) + ([sc["url"]] if sc.get("repeat") else [])
     if sc.get("first_closes"):
-        w.sc["exchanges"] = [{"k": "resp", "status": 200, "keepalive": False}]
+        w.exchanges.append({"k": "resp", "status": 200, "keepalive": False})
     u0 = read_url(sc["url"])
     if via == "proxy":
         w.listen(None, 3128, H.origin_factory("proxy", "proxy"))
@@ -194,6 +199,12 @@ def run(sc: dict) -> Result:
             check(sc, w, u0, res, via)
             if sc.get("sibling") and outs[1][0] == "ok" and via == "direct":
                 check_second(sc["sibling"], w, res)
+            if sc.get("repeat"):
+                if via == "direct" and outs[1][0] == "ok":
+                    check_second(sc["url"], w, res)
+                    res.probes["second_life_checked"] += 1
+                elif via == "proxy":
+                    check_second_life_proxy(sc["url"], w, res, outs[1][0] == "ok")
             if sc.get("variant") and len(urls) == 2 and outs[1][0] == "ok" and not res.violations:
                 reqs = [q for q in w.requests if q.method != "CONNECT"]
                 if len(reqs) == 2:
@@ -268,11 +279,8 @@ def check(sc, w, u, res, via):
             if con.method != "CONNECT":
                 res.bad("https_not_tunnelled", f"first message at the proxy: {con.method} {con.target}")
                 return
-            hp = u["host"].rstrip(".")
-            want_conn = ("[" + hp + ("%" + u["zone"] if u["zone"] else "") + "]" if u["v6"] else hp) + f":{u['port']}"
-            alt = ("[" + hp + "]" if u["v6"] else hp) + f":{u['port']}"
-            if con.target.lower() not in (want_conn.lower(), alt.lower()) and con.target.lower().rstrip(".") not in (want_conn.lower(),) and con.target.lower().replace(".:", ":") != want_conn.lower():
-                res.bad("wrong_connect_target", f"CONNECT {con.target!r}, URL says {want_conn!r}")
+            if not connect_target_ok(con.target, u):
+                res.bad("wrong_connect_target", f"CONNECT {con.target!r} for {sc['url']!r}")
             inner = [q_ for q_ in reqs if q_.method != "CONNECT"]
             if inner:
                 if inner[0].target not in want_targets(u):
@@ -317,6 +325,47 @@ def check_second(url, w, res):
         check_sni(wraps[0][2] if wraps else None, u, res)
 
 
+def connect_target_ok(target: str, u: dict) -> bool:
+    """CONNECT host:port names the URL's host (IPv6 bracketed; a zone id or a trailing dot may be kept) and port."""
+    hp = u["host"].rstrip(".")
+    want_conn = ("[" + hp + ("%" + u["zone"] if u["zone"] else "") + "]" if u["v6"] else hp) + f":{u['port']}"
+    alt = ("[" + hp + "]" if u["v6"] else hp) + f":{u['port']}"
+    t = target.lower()
+    return t in (want_conn.lower(), alt.lower()) or t.rstrip(".") == want_conn.lower() or t.replace(".:", ":") == want_conn.lower()
+
+
+def check_second_life_proxy(url, w, res, ok2):
+    """Same URL twice through the proxy, the first answer closing the connection."""
+    u = read_url(url)
+    if u["scheme"] == "https":
+        # every connection this manager opens for an https URL starts with CONNECT -- whatever became of the request
+        for s_ in w.sockets:
+            if s_.sent and not bytes(s_.sent).startswith(b"CONNECT "):
+                res.bad("https_not_tunnelled", f"a connection to the proxy for {url!r} began with {bytes(s_.sent[:24])!r} instead of CONNECT")
+                return
+        inner = [q for q in w.requests if q.method != "CONNECT"]
+        if ok2 and len(inner) >= 2:
+            q2 = inner[1]
+            cons = [q for q in w.requests if q.method == "CONNECT" and q.sid == q2.sid]
+            if not cons:
+                res.bad("https_not_tunnelled", f"second request for {url!r} travelled on a connection without CONNECT")
+            elif not connect_target_ok(cons[0].target, u):
+                res.bad("wrong_connect_target", f"second life: CONNECT {cons[0].target!r} for {url!r}")
+            wraps = [t for t in w.tls_log if t[0] == "client_wrap" and t[1] == q2.sid]
+            check_sni(wraps[-1][2] if wraps else None, u, res)
+            if inner[1].target not in want_targets(u):
+                res.bad("wrong_target", f"second life: target in tunnel {inner[1].target!r}")
+            res.probes["second_life_checked"] += 1
+    else:
+        reqs = [q for q in w.requests]
+        if ok2 and len(reqs) >= 2:
+            got = read_url(reqs[1].target) if "://" in reqs[1].target else None
+            if got is None or (got["scheme"], got["host"].rstrip("."), got["port"]) != (u["scheme"], u["host"].rstrip("."), u["port"]):
+                res.bad("wrong_target", f"second life: forwarding proxy got {reqs[1].target!r} for {url!r}")
+            check_host_field(reqs[1], u, res)
+            res.probes["second_life_checked"] += 1
+
+
 def check_host_field(req, u, res):
     hv = req.header_all("Host")
     ok = {want_host_field(u, False).lower(), want_host_field(u, True).lower()}
@@ -338,9 +387,14 @@ def shrinks(sc):
         c = copy.deepcopy(sc)
         del c["variant"]
         yield c
-    if sc.get("first_closes"):
+    if sc.get("first_closes") and not sc.get("repeat"):
         c = copy.deepcopy(sc)
         del c["first_closes"]
+        yield c
+    if sc.get("repeat"):
+        c = copy.deepcopy(sc)
+        del c["repeat"]
+        c.pop("first_closes", None)
         yield c
     if sc["via"] != "direct":
         c = copy.deepcopy(sc)
